@@ -26,7 +26,11 @@ MANIFEST = dict(
          'stream transfers, pool reconfiguration between phases, ShardQueue under load) run under the Go race detector, sharded over seeds; every race report (two stacks) is a violation with the workload/seed as replay.',
     note='partial (the weakest claim of the design): the ordering facts are HYPOTHESES of C19_no_race (they are the invariants of the C05/C06/C09/C10/C17/C18 models and the documented API contract, cited, not re-proved here); '
          'the role/lock annotation of each function is a trusted input at function granularity (the extractor does not check that an access sits lexically inside the critical section); only the listed structs and package variables are covered, '
-         'LinkBuffer internals are the documented exemption; deadline setters are taken as part of the reader/writer role. The race-detector runs sample schedules.',
+         'LinkBuffer internals are the documented exemption; deadline setters are taken as part of the reader/writer role. The race-detector runs sample schedules. '
+         'Not claimed here: atomicity of a check-then-act on an atomic-only field. Rewriting e.g. the close-once guard of netFD.Close (atomic.AddUint32(&closed,1) != 1) as an atomic load '
+         'followed by an atomic store keeps every access atomic - no Go data race, the discipline still holds, the race detector stays silent - although two overlapping Close calls then both '
+         'reach close(2). That is a violation of C15 (closed exactly once), not of this property; the guard is tied to the source there (Netpoll.Tie.Fd.netFD_close_decided_by_one_rmw) '
+         'and concurrent Close calls on one netFD are executed by the C15 audit (scenario netfd-close-race).',
     technique='Lean 4 kernel-checked access discipline over a regenerated access table + generic race-freedom theorem over abstract executions + race-detector workloads', design='§6 C19')
 
 WORKLOADS = ['close-vs-read', 'close-vs-flush', 'detach-vs-hup', 'callbacks', 'server-shutdown', 'dial', 'stream', 'reconfigure', 'shardqueue']
